@@ -64,6 +64,9 @@ func alternatives(p Position, withPanic, thorough bool) []string {
 	switch p.Kind {
 	case "element":
 		if p.Abstract {
+			if withPanic {
+				return []string{"null", "alt", "rogue"}
+			}
 			return []string{"null", "alt"}
 		}
 		return []string{"null"}
@@ -84,6 +87,9 @@ func alternatives(p Position, withPanic, thorough bool) []string {
 		}
 		if p.Abstract {
 			out = append(out, "alt", "typednil")
+			if withPanic {
+				out = append(out, "rogue")
+			}
 		}
 	}
 	if withPanic {
